@@ -335,8 +335,8 @@ class Pacing:
         if k.startswith("ext_"):
             # the contents of a directory that has just left the tree are not touched before the stream drained
             return op[1] not in self.out_blocked and not (k == "ext_rename" and op[2] in self.out_blocked)
-        if k == "move_in" and op[1] in self.out_blocked:
-            return False
+        # (a directory that has just left may come straight back under another name: that neither touches its contents
+        # nor re-uses one of its names; its old name and its contents stay blocked for the rest of the burst)
         paths = [x for x in op[1:3] if isinstance(x, str)]
         if k == "move_out":
             paths = [op[1]]
